@@ -161,7 +161,8 @@ class BaseGroupBy(ABC):
 
     def __iter__(self) -> Tuple[Hashable, Union[pd.Series, pd.DataFrame]]:
         for key, indexer in self.groups.items():
-            yield key, self._obj.loc[indexer]
+            # the indexers are row positions, not index labels
+            yield key, self._obj.iloc[indexer]
 
     @groupby_aggregation("Compute sum of group values")
     def sum(
